@@ -193,6 +193,12 @@ def check_fixed(rep: Report, ix) -> None:
         good = v[0] == "aug" and v[1] == "Add" and const_number(v[2]) == 1
         if good:
             incs.append(n)
+        elif v[0] == "expr" and isinstance(v[1], ast.Call) and dotted_name(v[1].func) == "max" and any(
+            isinstance(a, ast.BinOp) and isinstance(a.op, ast.Add) and dotted_name(a.left) == IDX and const_number(a.right) == 1 for a in v[1].args
+        ):
+            # `_index = max(_index + 1, <search>)` still advances strictly, but whether the searched position is the
+            # first not-yet-passed element depends on the search routine: a different algorithm, not decided here
+            raise AnalysisError(f"{ref}: `{ast.unparse(n.ast)}` advances the cursor through a search routine; this idiom is outside the rules of C09.fixed-*")
         rep.sample({"construct": ref, "index store": ast.unparse(n.ast)})
         if not rep.oblige(f"fixed.next/index-monotone#{k}", good, ast.unparse(n.ast)):
             rep.violation("C09.fixed-index-monotone", f"{ref}::_index-store", f"`{ast.unparse(n.ast)}`: in next() the cursor {IDX} may only be incremented by 1 (a reset or jump re-serves or skips interrupts)", line=n.lineno)
